@@ -473,11 +473,22 @@ func (r *runState) report(v *Violation) {
 		}
 	}
 	v.Sched = append([]string(nil), r.schedLog...)
+	if v.Class == "" {
+		// schedule-dependent violations are classified by the operation before which the first
+		// preemption happened (the window that was hit)
+		for _, step := range r.schedLog {
+			if i := strings.Index(step, ") before "); strings.HasPrefix(step, "preempt ") && i > 0 {
+				v.Class = "preempt-before-" + strings.ReplaceAll(step[i+len(") before "):], " ", "-")
+				break
+			}
+		}
+	}
 	e := r.ex
 	e.mu.Lock()
 	defer e.mu.Unlock()
-	e.violCount[v.ID]++
-	if e.Opts.MaxViolations > 0 && e.violCount[v.ID] > e.Opts.MaxViolations {
+	key := v.ID + "|" + v.Class
+	e.violCount[key]++
+	if e.Opts.MaxViolations > 0 && e.violCount[key] > e.Opts.MaxViolations {
 		return
 	}
 	e.Violations = append(e.Violations, v)
